@@ -7,6 +7,11 @@ use aws_smt_strings::character_sets::*;
 use aws_smt_strings::errors::Error;
 use aws_smt_strings::regular_expressions::ReManager;
 
+/// same intervals and same emptiness of the complementary class (the witness itself may legitimately differ)
+pub fn same_partition(a: &CharPartition, b: &CharPartition) -> bool {
+    a.len() == b.len() && a.ranges().zip(b.ranges()).all(|(x, y)| x == y) && a.empty_complement() == b.empty_complement()
+}
+
 fn build_push(p: &Ivs) -> CharPartition {
     let mut cp = CharPartition::new();
     for &(a, b) in p {
@@ -62,8 +67,11 @@ pub fn check_partition(rep: &mut Report, p: &Ivs, cp: &CharPartition, how: &str,
     if cp.empty_complement() != comp_empty {
         bad!("complement", "{}: empty_complement() = {} for {}", how, cp.empty_complement(), case);
     }
-    if !comp_empty && cp.pick_complement() != wit {
-        bad!("complement", "{}: pick_complement() = {:x} for {}, the least uncovered character is {:x}", how, cp.pick_complement(), case, wit);
+    if !comp_empty && (cp.pick_complement() > MAXC || class_of(p, cp.pick_complement()).is_some()) {
+        bad!("complement", "{}: pick_complement() = {:x} for {} is not a character of the complementary class (least uncovered character: {:x})", how, cp.pick_complement(), case, wit);
+    }
+    if !comp_empty && cp.pick_complement() == wit {
+        rep.inc("witness_is_least_uncovered_character");
     }
     let n = p.len();
     if cp.num_classes() != n + (!comp_empty) as usize {
@@ -247,7 +255,7 @@ pub fn check_case(rep: &mut Report, p: &Ivs, seed: u64, thorough: bool) {
     // from_set for single intervals
     if p.len() == 1 {
         let c1 = CharPartition::from_set(&CharSet::range(p[0].0, p[0].1));
-        if c1 != cp {
+        if !same_partition(&c1, &cp) {
             rep.violation("build", "build:from_set", format!("from_set differs from the push-built partition for {}", case), "partition", &case, seed);
         }
         check_partition(rep, p, &c1, "from_set", seed, false, &mut rng);
@@ -260,8 +268,7 @@ pub fn check_case(rep: &mut Report, p: &Ivs, seed: u64, thorough: bool) {
         let r = if round == 0 { guard(|| CharPartition::try_from_list(&v)) } else { guard(|| CharPartition::try_from_iter(v.iter().copied())) };
         match r {
             Ok(Ok(c2)) => {
-                if c2 != cp {
-                    // equality of the structs includes the witness; judge by queries as well
+                if !same_partition(&c2, &cp) {
                     rep.violation("build", "build:try_from_iter-order", format!("try_from_iter on a shuffled list of {} gives a different partition", case), "partition", &case, seed);
                     return;
                 }
